@@ -31,10 +31,22 @@ RECV = S + '_next_receive_seq'
 FORCING = {'FIX8::InvalidMsgSequence', 'FIX8::MsgSequenceTooLow', 'FIX8::InvalidVersion', 'FIX8::BadSendingTime', 'FIX8::BadCompidId'}
 
 
-def origsendingtime_rule(ctx, f, RID):
+def origsendingtime_rule(ctx, f, RID, prog=None):
     """PossDup replay: only OrigSendingTime strictly after SendingTime is refused (equal stamps are legal) - also C20 R20.4"""
     cfg = f.cfg
-    ost = q.branches(f, lambda a: a.is_call and a.r.get('op') in ('>', '<', '>=', '<=') and q.reads_local_of_field(a, 122) and q.reads_local_of_field(a, 52))
+    is_ost = lambda a: a.is_call and a.r.get('op') in ('>', '<', '>=', '<=') and q.reads_local_of_field(a, 122) and q.reads_local_of_field(a, 52)
+    ost = q.branches(f, is_ost)
+    if not ost and prog is not None:
+        # the test may live in a small helper of the unit that is handed the message (it throws from there)
+        for c in f.calls():
+            if not c.callee_qp or not c.args:
+                continue
+            for h in prog.fns(c.callee_qp):
+                if h.tu is f.tu and 'cfg' in h.raw and q.branches(h, is_ost):
+                    ctx.saw(h)
+                    ctx.check(any(q.refers_to_decl(a_, f.param_ids[1]) for a_ in c.args), RID, S + 'sequence_check#lt.origsendingtime-helper', c.loc,
+                              'the helper that compares the two stamps is given this message')
+                    return origsendingtime_rule(ctx, h, RID)
     ctx.check(len(ost) == 1, RID, S + 'sequence_check#lt.origsendingtime-test', f.loc, 'OrigSendingTime(122) is compared with SendingTime(52)')
     for br in ost:
         a = br[1]
@@ -156,6 +168,23 @@ def run(ctx):
     ctx.check(r_lt and all(q.return_value(r) == 1 for r in r_lt), 'R19.2', S + 'sequence_check#lt.returns', f.loc,
               'seqnum < expected: the only normal return is `true` (after the PossDup tests)')
     pd = q.branches(f, lambda a: a.is_call and a.r.get('op') == '()' and q.reads_local_of_field(a, 43))
+    pd_helper = None
+    if not pd:
+        # a predicate helper of the unit: single return of the flag it has just read from the header of the message it is given
+        def pd_pred(a):
+            if not a.is_call or not a.callee_qp or not a.args or not any(q.refers_to_decl(x, f.param_ids[1]) for x in a.args):
+                return None
+            for h in prog.fns(a.callee_qp):
+                rr_ = [x for x in h.all_nodes() if x.k == 'ReturnStmt' and x.children]
+                gets_ = [c for c in h.calls() if c.callee_qp == 'FIX8::MessageBase::get' and c.args and q.reads_local_of_field(c.args[0], 43)]
+                if h.tu is f.tu and len(rr_) == 1 and q.reads_local_of_field(rr_[0].children[0], 43) and gets_ and \
+                        all(h.cfg.dominates(h.cfg.vertex_of(g_), h.cfg.vertex_of(rr_[0])) for g_ in gets_[:1]):
+                    return h
+            return None
+        pd = q.branches(f, lambda a: pd_pred(a) is not None)
+        if pd:
+            pd_helper = pd_pred(pd[0][1])
+            ctx.saw(pd_helper)
     ctx.check(len(pd) == 1 and cfg.block_last[pd[0][0]] in reach_lt, 'R19.2', S + 'sequence_check#lt.possdup-test', f.loc,
               'PossDupFlag(43) is tested in the seqnum < expected case')
     for br in pd:
@@ -168,9 +197,9 @@ def run(ctx):
                   'the exception thrown is MsgSequenceTooLow')
         # the flag is read from this message's header
         got = [c for c in f.calls() if c.callee_qp == 'FIX8::MessageBase::get' and c.args and q.reads_local_of_field(c.args[0], 43)]
-        ctx.check(bool(got) and all(cfg.dominates(cfg.vertex_of(g), cfg.block_last[br[0]]) for g in got[:1]), 'R19.2',
+        ctx.check(pd_helper is not None or bool(got) and all(cfg.dominates(cfg.vertex_of(g), cfg.block_last[br[0]]) for g in got[:1]), 'R19.2',
                   S + 'sequence_check#lt.possdup-read', br[1].loc, 'PossDupFlag is read from the message header before the test')
-    origsendingtime_rule(ctx, f, 'R19.2')
+    origsendingtime_rule(ctx, f, 'R19.2', prog)
     r_eq, t_eq, reach_eq = rets('EQ')
     ctx.check(r_eq and all(q.return_value(r) == 1 for r in r_eq) and not t_eq, 'R19.2', S + 'sequence_check#eq.accept', f.loc,
               'seqnum = expected: returns true, throws nothing')
